@@ -1481,7 +1481,10 @@ func (f *frame) chanEvent(op string, ch ssa.Value, ins ssa.Instruction, sent ssa
 		}
 		sig := types.NewSignatureType(nil, nil, nil, types.NewTuple(), results, false)
 		if con.Params == nil {
-			con.Params = []string{"ch", "v"}
+			// contracts of channel events name their arguments ch and v (set once at load time)
+			c2 := *con
+			c2.Params = []string{"ch", "v"}
+			con = &c2
 		}
 		r := f.applyContract(name, con, nil, sig, args, argTypes, pos)
 		if resVal != nil {
